@@ -241,6 +241,9 @@ impl Monitor for Mon {
                 }
             }
         }
+        if matches!(rec.op, Op::Listen { .. }) && self.pending.is_some() {
+            stats.bump("probe.rxc-reception-before-answers");
+        }
         // a downlink accepted in a Class A window of this op starts a new round
         let reacts = reactions(w, rec);
         let dels: Vec<crate::world::Delivered> = w.env.borrow().delivered[rec.del_lo..rec.del_hi].to_vec();
@@ -364,6 +367,12 @@ impl Property for C08 {
                 t.gap1.push(FrameSpec::Data(g));
             }
             ops.push(Op::Send { port: r.range(1, 223) as u8, len: send_len(&mut r), confirmed: r.chance(1, 4), txn: t });
+            if cfg.frontend == Frontend::AsyncC && r.chance(1, 3) {
+                // idle RXC listening between the downlink and the uplink that must carry its answers
+                let k = r.range(1, 2);
+                let frames = (0..k).map(|_| if r.chance(3, 4) { frame_ok(&mut r) } else { frame_rejected(&mut r) }).collect();
+                ops.push(Op::Listen { frames, fault: None });
+            }
             // uplinks that carry the answers and the sticky repeats
             let follow = r.range(1, 3);
             for _ in 0..follow {
@@ -401,6 +410,6 @@ impl Property for C08 {
         Ok(())
     }
     fn expected_probes(&self, _tier: Tier) -> Vec<&'static str> {
-        vec!["probe.classA-downlink-with-commands", "probe.acked-request-checked", "probe.naked-request-checked", "probe.answer-overflow-15-bytes", "probe.sticky-repeat-checked", "probe.rejected-frame-while-sticky-pending"]
+        vec!["probe.classA-downlink-with-commands", "probe.acked-request-checked", "probe.naked-request-checked", "probe.answer-overflow-15-bytes", "probe.sticky-repeat-checked", "probe.rejected-frame-while-sticky-pending", "probe.rxc-reception-before-answers"]
     }
 }
